@@ -16,7 +16,7 @@ RULE = (
     "constructor keywords, options, MIDI bindings, type-specific payload: curves, waveforms, harmonics, mapping tables, Vorbis data, sampler "
     "samples/envelopes/effect, embedded projects) for all 42 non-Output types; a guaranteed sweep visits every type per shard in addition to the "
     "random draw. Each module is checked in both contexts (Synth(mod) and inside a one-module project), through clone(), and the two contexts are "
-    "compared with each other; half of the cases continue with a second recipe applied to the same, already saved and cloned objects (second generation). distinct = recipe hash; non-trivial = a controller at a range end / negative-min controller at its minimum / "
+    "compared with each other (write_to vs read, path vs stream loads too); the first clone and the first loaded copy are then edited inside their containers and the original is cloned / its file loaded again (later copies must equal the original); a family nests MetaModules 2-4 levels deep; half of the cases continue with a second recipe applied to the same, already saved and cloned objects (second generation) and to the clone and the loaded copy, which are saved and cloned in turn. distinct = recipe hash; non-trivial = a controller at a range end / negative-min controller at its minimum / "
     "unit-dependent controller set, or a non-default payload, option or binding"
 )
 ASSUMPTIONS = [
